@@ -902,6 +902,45 @@ func runC13(c *h.Ctx) {
 			}
 		}
 	}
+	// below .** a strict path forgives structural errors and nothing else: an
+	// operand that is an array is still not a number there (no unwrapping)
+	{
+		k := 0
+		for _, cond := range []string{"@.a + 1 > -100", "(@.a + 1 > -100) is unknown", "!(@.a * 2 > 0)", "-@.a < 0", "exists(+@.a)", "@.n / @.a == 1", "@.a % 2 == 1", "(-@.a > 0) is unknown", "@.n - @.a > -50"} {
+			for _, d := range []string{`{"a":[1],"n":1}`, `{"a":1,"n":1}`, `{"a":[1,2],"n":1}`, `{"a":[],"n":1}`, `{"a":[[1]],"n":1}`} {
+				k++
+				if !c.Mine(k) {
+					continue
+				}
+				for _, pre := range []string{"$.**{0}", "$.**{0 to 0}", "$.w.**{1}"} {
+					below := cachedPath("strict " + pre + " ? (" + cond + ")")
+					plain := cachedPath("strict $ ? (" + cond + ")")
+					if below == nil || plain == nil {
+						c.Count("gen.unparsable", 1)
+						continue
+					}
+					for _, useNum := range []bool{false, true} {
+						doc := h.Decode(d, useNum)
+						var bdoc any = doc
+						if strings.HasPrefix(pre, "$.w") {
+							bdoc = map[string]any{"w": map[string]any{"x": doc}}
+						}
+						ob := h.Call("query", below, bdoc, h.Opts{})
+						op := h.Call("query", plain, doc, h.Opts{})
+						c.Eval(2)
+						if ob.Class == h.Panic || op.Class == h.Panic {
+							continue
+						}
+						if ob.Class != op.Class || len(ob.Items) != len(op.Items) {
+							c.Violate("singleton", h.F("form", "below-any", "mode", "strict "), fmt.Sprintf("Query(strict %s ? (%s)) = %s but Query(strict $ ? (%s)) on the same item = %s (document %s)", pre, cond, ob.Summary(), cond, op.Summary(), d), h.Case{Kind: "exec", Path: "strict " + pre + " ? (" + cond + ")", Doc: d, UseNum: useNum})
+						} else {
+							c.Held("singleton")
+						}
+					}
+				}
+			}
+		}
+	}
 	// both unary operators on the same number in one execution: each applies
 	// to the item it is given, whatever the other has been given before -
 	// compared with the same expression written without unary operators
